@@ -17,7 +17,7 @@ from vlib.runner import Ctx, Failure
 LEVEL = "exploration"
 RULE = (
     "Hypothesis RuleBasedStateMachine per configuration (budget 1..5 x {generic, NV hardware} x {no compiler, NV transpiler}); "
-    "rules: new qubit, 1-/2-qubit gate, in-place measure, destructive measure, free, create_keep/recv_keep (k pairs, plain and "
+    "rules: new qubit, 1-/2-qubit gate, reset, in-place measure, destructive measure (Z, X/Y bases, rotated bases), free, create_keep/recv_keep (k pairs, plain and "
     "sequential with post routine), create_context/recv_context, flush; allocating rules are enabled only within the budget "
     "(budget-1 on single-communication-qubit hardware).  Non-trivial = history with >=1 id reuse after release, an NV "
     "relocation, or an EPR keep with another qubit alive; distinct by history hash"
@@ -105,6 +105,23 @@ class HistoryRunner:
                 q = self._pick(op[1])
                 ids_before = {id(h): h.qubit_id for h in self.handles}
                 q.measure(inplace=op[2])
+                if any(ids_before[id(h)] != h.qubit_id for h in self.handles):
+                    self.info["relocation"] = True
+                if not op[2]:
+                    self.handles.remove(q)
+                    self.dead.append(q)
+                    self.info["released"] += 1
+            elif k == "reset":
+                self._pick(op[1]).reset()
+            elif k == "measb":
+                from netqasm.sdk.qubit import QubitMeasureBasis
+
+                q = self._pick(op[1])
+                ids_before = {id(h): h.qubit_id for h in self.handles}
+                if op[3] is not None:
+                    q.measure(inplace=op[2], basis_rotations=tuple(op[3]))
+                else:
+                    q.measure(inplace=op[2], basis=QubitMeasureBasis[op[4]])
                 if any(ids_before[id(h)] != h.qubit_id for h in self.handles):
                     self.info["relocation"] = True
                 if not op[2]:
@@ -232,6 +249,16 @@ def make_machine(ctx: Ctx, stt):
         @rule(h=st.integers(0, 7), inplace=st.booleans())
         def meas(self, h, inplace):
             self.r.apply(["meas", h, inplace])
+
+        @precondition(lambda self: self.r is not None and len(self.r.handles) >= 1)
+        @rule(h=st.integers(0, 7))
+        def reset(self, h):
+            self.r.apply(["reset", h])
+
+        @precondition(lambda self: self.r is not None and len(self.r.handles) >= 1)
+        @rule(h=st.integers(0, 7), inplace=st.booleans(), rot=st.none() | st.lists(st.integers(0, 31), min_size=3, max_size=3), basis=st.sampled_from(["X", "Y", "Z"]))
+        def measb(self, h, inplace, rot, basis):
+            self.r.apply(["measb", h, inplace, rot, basis])
 
         @precondition(lambda self: self.r is not None and len(self.r.handles) >= 1)
         @rule(h=st.integers(0, 7))
